@@ -26,12 +26,18 @@ type cpuRig struct {
 
 func newRig() *cpuRig {
 	g := &cpuRig{bm: &mem.BusMem{}}
+	if altFirst {
+		g.alt = new(cpualt.CPU)
+		g.alt.Init()
+	}
 	g.bus, _ = bus.New()
 	if err := g.bus.Attach(g.bm, "all", 0, 0xFFFFFF); err != nil {
 		panic(err)
 	}
-	g.alt = new(cpualt.CPU)
-	g.alt.Init()
+	if !altFirst {
+		g.alt = new(cpualt.CPU)
+		g.alt.Init()
+	}
 	g.alt.Bus.AttachReader(0, 0xFFFFFF, func(a uint32) uint8 { return g.am.RdAddr(a) })
 	g.alt.Bus.AttachWriter(0, 0xFFFFFF, func(a uint32, v uint8) { g.am.WrAddr(a, v) })
 	return g
@@ -49,8 +55,24 @@ func (g *cpuRig) loadPrim(s ref.State, stale bool, r *vf.Rng) {
 		c.OnWDM, c.OnPC = nil, nil
 		c.B, c.E, c.Interrupt = 0, 0, 0
 		c.StepInfo = cpu65c816.StepInfo{}
+	} else if c.Bus == g.bus && r.Intn(3) == 0 {
+		// a CPU made with InitFrom from one that has already run other code
+		tmp := *c
+		c.InitFrom(&tmp, g.bus)
+		c.AllCycles, c.Cycles, c.Stopped, c.PRK, c.PPC, c.WDM = 0, 0, false, 0, 0, 0
+		c.OnWDM, c.OnPC = nil, nil
+		c.B, c.E, c.Interrupt = 0, 0, 0
+		c.StepInfo = cpu65c816.StepInfo{}
 	} else {
 		c.Init(g.bus)
+	}
+	if !stale && !s.E && r.Intn(3) == 0 {
+		// load the status register through the API: 16-bit registers first, then SetFlags narrows them
+		c.PC, c.SP, c.RD, c.RDBR, c.RK = s.PC, s.S, s.D, s.DBR, s.K
+		c.M, c.X = 0, 0
+		c.RA, c.RX, c.RY = s.A, s.X, s.Y
+		c.SetFlags(s.P)
+		return
 	}
 	c.PC, c.SP, c.RD, c.RDBR, c.RK = s.PC, s.S, s.D, s.DBR, s.K
 	c.N = s.P >> 7 & 1
